@@ -5080,7 +5080,7 @@ class PyCdlib:
             # in the link counts of the parent (and a deep directory needs the
             # relocation directory first), so a parent that cannot take the
             # name has to be refused before any of that.
-            parent.check_new_child(name)
+            parent.check_new_child(name, new_rr_name if self.rock_ridge else None)
 
             relocated = False
             fake_dir_rec = None
